@@ -121,6 +121,7 @@ type Interp struct {
 	killing  bool
 	lastPanic *goPanic
 	curInstr ssa.Instruction
+	asserted map[*Term]bool
 	initSteps int
 }
 
@@ -145,6 +146,7 @@ type observed struct {
 }
 
 type PathStats struct {
+	Pruned    int
 	Decisions int
 	Queries   int
 	Steps     int
@@ -176,6 +178,44 @@ func (in *Interp) needModel() {
 func (in *Interp) assertPC(c *Term) {
 	in.sol.Assert(c)
 	in.pcLen++
+	in.noteAsserted(c)
+}
+
+// noteAsserted records asserted literals (splitting conjunctions) for syntactic pruning.
+func (in *Interp) noteAsserted(c *Term) {
+	if c.Op == OpBAnd {
+		in.noteAsserted(c.A[0])
+		in.noteAsserted(c.A[1])
+		return
+	}
+	if c.Op == OpNot && c.A[0].Op == OpBOr {
+		in.noteAsserted(in.tt.Not(c.A[0].A[0]))
+		in.noteAsserted(in.tt.Not(c.A[0].A[1]))
+		return
+	}
+	in.asserted[c] = true
+}
+
+// impliedBy reports whether c is syntactically implied by the asserted literals.
+func (in *Interp) implied(c *Term) bool {
+	if in.asserted[c] {
+		return true
+	}
+	switch c.Op {
+	case OpBAnd:
+		return in.implied(c.A[0]) && in.implied(c.A[1])
+	case OpBOr:
+		return in.implied(c.A[0]) || in.implied(c.A[1])
+	case OpNot:
+		x := c.A[0]
+		switch x.Op {
+		case OpBAnd:
+			return in.implied(in.tt.Not(x.A[0])) || in.implied(in.tt.Not(x.A[1]))
+		case OpBOr:
+			return in.implied(in.tt.Not(x.A[0])) && in.implied(in.tt.Not(x.A[1]))
+		}
+	}
+	return false
 }
 
 func (in *Interp) evalBool(c *Term) bool {
@@ -212,8 +252,16 @@ func (in *Interp) decide(c *Term) bool {
 	if !take {
 		tc, oc = oc, tc
 	}
-	in.pathStats.Queries++
-	res, m, err := in.sol.Check([]*Term{oc}, in.inputs)
+	var res SatResult
+	var m Model
+	var err error
+	if in.implied(tc) {
+		res = Unsat
+		in.pathStats.Pruned++
+	} else {
+		in.pathStats.Queries++
+		res, m, err = in.sol.Check([]*Term{oc}, in.inputs)
+	}
 	if err != nil {
 		in.ex.noteSolverError(err)
 	}
